@@ -262,7 +262,7 @@ def proof_step(pid):
         info["failed"] = [l for l in text.splitlines() if "error" in l][:40]
         return False, info
     cur = None
-    for m in re.finditer(r"'([^']+)' (depends on axioms: \[([^\]]*)\]|does not depend on any axioms)", text.replace("\n", " ")):
+    for m in re.finditer(r"'(\S+)' (depends on axioms: \[([^\]]*)\]|does not depend on any axioms)", text.replace("\n", " ")):
         name = m.group(1)
         axs = [a.strip() for a in (m.group(3) or "").split(",") if a.strip()]
         info["axioms"][name] = axs
